@@ -79,6 +79,7 @@ def make_case(rng):
         "secure": rng.randrange(len(SECURE)),
         "header_map": rng.choice(["drop", "drop", "refuse", "refuse", "Drop", "DROP", "Refuse"]),
         "proxy_line": rng.random() < 0.45,
+        "first_piece": rng.choice([1, 2, 3, 4, 5, 6, 7, 12, 30]) if rng.random() < 0.15 else 0,
     }
     n = 1 if case["kind"] == "sync" else rng.choice([1, 2, 3])
     reqs = []
@@ -282,7 +283,16 @@ def run_case(run, e2, harnesses, case):
             harnesses.pop(k0).close()
         h = harnesses[key] = e2.Harness(case["kind"], cs)
     app = Recorder()
-    out = h.connection(render(case), app, peer=PEERS[case["peer"]])
+    stream = render(case)
+    seg = None
+    if case.get("first_piece"):
+        # the connection's first bytes arrive in two pieces (the first read returns only the first few bytes): who may write a PROXY
+        # line, a scheme header or a script name does not depend on how the bytes travel
+        k = min(case["first_piece"], len(stream) - 1)
+        if k > 0:
+            seg = [k, len(stream) - k]
+            run.count("first_read_returns_a_few_bytes_only")
+    out = h.connection(stream, app, peer=PEERS[case["peer"]], segments=seg, segment_delay=0.02 if seg else 0.0)
     v = judge(case, app.envs, out)
     peer = PEERS[case["peer"]]
     run.count("app_calls", len(app.envs))
@@ -456,7 +466,7 @@ def shard(sh):
 
 def main(tier, seed):
     run = Run(PROP, tier, seed, "exploration", RULE)
-    run.require("app_calls", "second_or_later_request_served", "proxy_connection_served", "proxy_connection_second_request",
+    run.require("app_calls", "first_read_returns_a_few_bytes_only", "second_or_later_request_served", "proxy_connection_served", "proxy_connection_second_request",
                 "proxy_connection_refused", "untrusted_fwd_peer_served", "underscore_headers_served", "live_reload_narrowing_checks",
                 "live_refused_reload_checks", "mid_connection_proxy_line_cases", "mid_connection_proxy_line_refused",
                 "mid_connection_proxy_line_after_opening_line", "trusted_scheme_conflict_refused",
